@@ -12,6 +12,16 @@ BASE_NOTE = (
 
 # property -> (category, text, technique, design_ref, extra note)
 CLAIMS = {
+    "C06": (
+        "proof",
+        "The iteration product M(ctx)=prod(loop.length)*carry is carried by contracts on the real RenderContext.raise_for_loop_limit (returns only if M*n<=limit, raises iff over), "
+        "loop()/iterations() (inside the block M'=M*length and within the limit; restored on every exit path, including when extend() raises) and copy() (partial inherits M iff carry_loop_iterations). "
+        "The coupling 'every repeating construct pushes its length' is a call-site obligation over all render_to_output* methods (found mechanically: a loop that renders a loop-invariant block), discharged structurally; "
+        "a bounded contract check over all depth-2 (thorough: depth-3) nests of for/tablerow/render-for/include-for/for+render/for+include/macro-in-for stands in for the interpretive layer.",
+        "contract-based deductive verification (ghost iteration product; z3 nonlinear) + structural call-site obligations + bounded contract check",
+        "DESIGN.md section 4 C06",
+        "",
+    ),
     "C07": (
         "proof",
         "LimitedStringIO.write is verified against the abstract view (text,size,limit): appends exactly s, size == UTF-8 bytes of the contents, contents never exceed the limit, raises OutputStreamLimitError iff the write would exceed and then writes nothing; "
